@@ -46,14 +46,10 @@ def scriptpubkey(data: bytes) -> bytes:
     elif bits.is_segwit_addr(data):
         hrp, witness_version, witness_program = bits.decode_segwit_addr(data)
         assert hrp in [b"bc", b"tb", b"bcrt"], "unrecognized hrp"
-        if len(witness_program) == 20:
-            return p2wpkh_script_pubkey(
-                witness_program, witness_version=witness_version
-            )
-        elif len(witness_program) == 32:
+        if len(witness_program) == 32:
             return p2wsh_script_pubkey(witness_program, witness_version=witness_version)
-        else:
-            raise ValueError("bad witness program length")
+        # any other valid witness program (BIP141: 2 to 40 bytes): OP_n <program>
+        return p2wpkh_script_pubkey(witness_program, witness_version=witness_version)
     else:
         raise ValueError("data not identified as pubkey, base58check, nor segwit")
 
